@@ -143,16 +143,22 @@ class WsgiResult:
         self.closed = False
         self.problems = []
 
+    def _effective(self):
+        """The call that counts: the last one (a later call is only legal with exc_info before any body byte)."""
+        return self.start_calls[-1] if self.start_calls else None
+
     @property
     def status(self):
-        if not self.start_calls:
+        c = self._effective()
+        if c is None:
             return None
-        m = re.match(r"(\d{3})", self.start_calls[0][0] if isinstance(self.start_calls[0][0], str) else "")
+        m = re.match(r"(\d{3})", c[0] if isinstance(c[0], str) else "")
         return int(m.group(1)) if m else None
 
     @property
     def headers(self):
-        return list(self.start_calls[0][1]) if self.start_calls else []
+        c = self._effective()
+        return list(c[1]) if c else []
 
     @property
     def body(self):
@@ -177,7 +183,11 @@ def run_wsgi(app, environ, close_after=None, monitor=True):
     res = WsgiResult()
 
     def start_response(status, headers, exc_info=None):
-        res.start_calls.append((status, list(headers), len(res.items)))
+        sent = any(res.items)
+        if exc_info is not None and sent:
+            # headers already sent: the server re-raises (PEP 3333)
+            raise exc_info[1].with_traceback(exc_info[2])
+        res.start_calls.append((status, list(headers), len(res.items), exc_info is not None))
         return lambda data: res.items.append(data)  # pragma: no cover
 
     it = None
@@ -214,13 +224,14 @@ def run_wsgi(app, environ, close_after=None, monitor=True):
 
 def wsgi_problems(res):
     p = []
-    if len(res.start_calls) > 1:
-        p.append(f"start_response called {len(res.start_calls)} times")
+    extra = [c for c in res.start_calls[1:] if not (len(c) > 3 and c[3])]
+    if extra:
+        p.append(f"start_response called {len(res.start_calls)} times (without exc_info)")
     if not res.start_calls:
         if res.exc is None:
             p.append("start_response never called")
         return p
-    status, headers, _ = res.start_calls[0]
+    status, headers = res.start_calls[-1][0], res.start_calls[-1][1]
     if not isinstance(status, str) or not re.fullmatch(r"\d{3} [^\x00-\x1f\x7f]+", status):
         p.append(f"status line {status!r} is not 'NNN reason'")
     for pair in headers:
@@ -439,7 +450,7 @@ def run_wsgi_pair(app, environs, order):
 
     def start(i):
         def start_response(status, headers, exc_info=None):
-            results[i].start_calls.append((status, list(headers), len(results[i].items)))
+            results[i].start_calls.append((status, list(headers), len(results[i].items), exc_info is not None))
         try:
             its[i] = iter(app(environs[i], start_response))
         except BaseException as e:  # noqa
